@@ -650,6 +650,26 @@ func pqSystematicAlways() []string {
 		}
 		out = append(out, inner, "sum by(c) ("+inner+")")
 	}
+	// S13: group_left/group_right with ignoring(...) (or on(...)) on arithmetic and comparison operators -- the result keeps the
+	// labels of the "many" side, ignored ones included -- nested as an operand of an outer join on an ignored label
+	for _, op := range []string{"/", "*", ">", "> bool"} {
+		inners := []string{}
+		for _, mod := range []string{"ignoring(a) group_left()", "ignoring(a, c) group_left()", "ignoring(a) group_left(d)", "on(b) group_left()"} {
+			inners = append(inners, fmt.Sprintf("foo %s %s sum without(a) (bar)", op, mod))
+		}
+		inners = append(inners, fmt.Sprintf("sum without(a) (bar) %s ignoring(a) group_right() foo", op))
+		for _, in := range inners {
+			out = append(out, fmt.Sprintf("baz * on(a, b) (%s)", in), fmt.Sprintf("baz and on(a) (%s)", in), fmt.Sprintf("(%s) * on(a) group_left() baz", in))
+		}
+	}
+	// S14: by(...) lists in every order over operands that removed one of the listed labels, under an outer join on a label
+	// listed before / after the removed one
+	for _, in := range []string{"sum without(a) (foo)", `foo{a=""}`, "(foo * ignoring(a) bar)"} {
+		for _, ll := range [][2]string{{"a, b", "b"}, {"b, a", "b"}, {"a, b, c", "b"}, {"a, b, c", "c"}, {"b, a, c", "b"}, {"b, a, c", "c"}, {"c, a, b", "b"}, {"c, a, b", "c"}} {
+			out = append(out, fmt.Sprintf("baz * on(%s) group_left() sum by(%s) (%s)", ll[1], ll[0], in),
+				fmt.Sprintf("baz and on(%s) sum by(%s) (%s)", ll[1], ll[0], in))
+		}
+	}
 	// S7: absent()/absent_over_time() over dead, always-returning and ordinary operands, bare and as the deciding
 	// operand of on() set operators
 	for _, in := range []string{"foo", `foo{a="1"}`, "vector(1)", "vector(1) > 2", "foo unless on() vector(1)", "foo and on(a) sum(bar)", "sum(foo)"} {
